@@ -362,13 +362,50 @@ func strideAgreementRule(r *Report) {
 	var flag ssa.Value
 	okW := true
 	nW := 0
+	// the group appends: in DoMultiCache, or in an unexported pipe method it hands the mode flag to
+	type appendSite struct {
+		s    Site
+		f    ssa.Value
+		pol  bool
+		ok   bool
+		mult int // how many call sites of the helper this append stands for
+	}
+	var apps []appendSite
 	for _, s := range CallSites(fn, "builtin.append") {
+		f, pol, ok := flagPol(s.Block)
+		apps = append(apps, appendSite{s, f, pol, ok, 1})
+	}
+	for _, cs := range Sites(fn, func(in ssa.Instruction) bool { _, ok := in.(*ssa.Call); return ok }) {
+		call := cs.Instr.(*ssa.Call)
+		h := call.Call.StaticCallee()
+		if h == nil || h.Blocks == nil || isExportedName(h.Name()) || !strings.HasPrefix(FuncName(h), "rueidis.(*pipe).") || h == fn {
+			continue
+		}
+		for k, prm := range h.Params {
+			if shortType(prm.Type()) != "bool" || k >= len(call.Call.Args) {
+				continue
+			}
+			ph, isphi := call.Call.Args[k].(*ssa.Phi)
+			if !isphi {
+				continue
+			}
+			for _, s := range CallSites(h, "builtin.append") {
+				for _, g := range DomGuards(s.Block) {
+					if g.Cond == ssa.Value(prm) {
+						apps = append(apps, appendSite{s, ph, g.Pol, true, 1})
+					}
+				}
+			}
+		}
+	}
+	for _, a := range apps {
+		s := a.s
 		c := s.Instr.(*ssa.Call)
 		if !strings.HasSuffix(shortType(c.Type()), ".Completed") || !strings.HasPrefix(shortType(c.Type()), "[]") {
 			continue
 		}
 		es := variadicElemsOrdered(c.Call.Args[1])
-		f, pol, ok := flagPol(s.Block)
+		f, pol, ok := a.f, a.pol, a.ok
 		if !ok || len(es) == 0 {
 			continue
 		}
@@ -384,7 +421,7 @@ func strideAgreementRule(r *Report) {
 		}
 		group[pol] = len(es)
 	}
-	r.Ob("R11e", fn, "request-groups-per-mode", fn.Pos(), okW && nW >= 4 && len(group) == 2, fmt.Sprintf("every missed command contributes a group of fixed size chosen by one flag: %v", group))
+	r.Ob("R11e", fn, "request-groups-per-mode", fn.Pos(), okW && nW >= 2 && len(group) == 2, fmt.Sprintf("every missed command contributes a group of fixed size chosen by one flag: %v", group))
 	// reply walks
 	nR := 0
 	for _, b := range fn.Blocks {
@@ -526,7 +563,7 @@ func runC11(r *Report) {
 	nA, nP := 0, 0
 	for _, name := range []string{"rueidis.(*mux).DoMultiCache", "rueidis.(*clusterClient)._pickMultiCache", "rueidis.(*clusterClient).resultcachefn"} {
 		if fn := r.FnAnchor("R11a", name); fn != nil {
-			for _, f := range WithAnons(fn) {
+			for _, f := range WithHelpers(r.P, fn) { // closures and helpers only this function calls
 				nA += indexMapAppendRule(r, "R11a", f)
 				nP += placementRule(r, "R11b", f)
 			}
@@ -541,7 +578,7 @@ func runC11(r *Report) {
 	}
 	// mux closure: the replies placed are those of executing the batch's own command table
 	if fn := r.FnAnchor("R11b", "rueidis.(*mux).DoMultiCache"); fn != nil {
-		for _, f := range fn.AnonFuncs {
+		for _, f := range WithHelpers(r.P, fn)[1:] {
 			for _, s := range Sites(f, func(in ssa.Instruction) bool { _, ok := in.(*ssa.Store); return ok }) {
 				st := s.Instr.(*ssa.Store)
 				ia, ok := st.Addr.(*ssa.IndexAddr)
